@@ -615,7 +615,19 @@ def codec_modes(tier):
     return [DurationMode(), StatusMode()]
 
 
-RULE = CODEC_RULE
-ASSUMPTIONS = CODEC_ASSUMPTIONS
-THEOREMS = CODEC_THEOREMS
-modes = codec_modes
+from relaycommon import RelayMode
+
+MEMBER_THEOREMS = [("Relay.status_lists_exactly_members", "Relay.Props.C14Members"), ("Relay.gone_not_reported", "Relay.Props.C14Members"),
+                   ("Relay.run_inv_info", "Relay.Props.C14Members"), ("Access.client_bound_to_token", "Relay.Props.C01")]
+MEMBER_RULE = (" | membership half: relay mode (see C01) — after every history prefix GET /status with a relay:stats token must list exactly "
+               "the joined connections plus the stats feeder, each with its topic, read/write capability, scopes, expiry, user agent and "
+               "forwarded address (compared with the python reference and with the Lean model's report).")
+
+RULE = CODEC_RULE + MEMBER_RULE
+ASSUMPTIONS = CODEC_ASSUMPTIONS + ["'within one reporting interval' for the stats topic is not exhibited (the stats feeder's 1 s rate limit and statsEvery timer are real-time); the REST report is computed synchronously from the membership table",
+                                   "GET /status uses snake_case member names by its API specification; the published pkg/status client reads the stats-topic (camelCase) format only — decoding the REST body with it keeps only the shared names (proved as rest_decoded_by_status_client; not an alarm)"]
+THEOREMS = CODEC_THEOREMS + MEMBER_THEOREMS
+
+
+def modes(tier):
+    return codec_modes(tier) + [RelayMode("C14")]
